@@ -163,7 +163,7 @@ def check(text: str, contains: bool, pos: int, pipe: int) -> bool:
     names = [p[1] for p in parts if p[0] == "P"]
     if pos == 2 and is_open("c17-wildcard-placeholder-in-regex") and any(handler_for(n, pipe) == "wild" for n in names):
         return True  # known finding: trigger region skipped
-    key = ("f" if pos != 1 else "") + ("|re" if pos == 2 else "") + "|expand" + ("|contains" if contains and pos != 2 else "")
+    key = ("f" if pos != 1 else "") + ("|re" if pos == 2 else "") + "|expand" + ("|contains" if contains else "")
     det = {"sel": {key: text}} if pos != 1 else {"sel": {key: [text]}}
     det["condition"] = "sel"
     doc = {"title": "t", "logsource": {"category": "c"}, "detection": det}
@@ -218,7 +218,11 @@ def check(text: str, contains: bool, pos: int, pipe: int) -> bool:
     except Q.QuerySyntaxError:
         return False
     if pos == 2:
-        want_atoms = [("atom", ("re", "f", plain_regex_text(e))) for e in exps]
+        # `contains` on a regular expression: '.*' is put around the expression unless it is already anchored /
+        # open at that end (decided on the expression as written in the rule)
+        pre = ".*" if contains and not (text.startswith(".*") or text.startswith("^")) else ""
+        post = ".*" if contains and not (text.endswith(".*") or text.endswith("$")) else ""
+        want_atoms = [("atom", ("re", "f", pre + plain_regex_text(e) + post)) for e in exps]
     else:
         field = "f" if pos == 0 else None
         want_atoms = []
@@ -275,8 +279,6 @@ def c17_expand(n: int, k0: int, k1: int, k2: int, k3: int, k4: int, contains: bo
             return True
     cc = True if contains else False
     pos = P("POS", 0)
-    if pos == 2 and cc:
-        return True
     with concrete_section():
         ok = check(text, cc, pos, P("PIPE", 1))
     return fin(ok)
@@ -300,8 +302,6 @@ def c17_segments(n: int, s0: int, s1: int, s2: int, contains: bool) -> bool:
         text += SEGMENTS[sel(ss[i], len(SEGMENTS))]
     cc = selb(contains)
     pos = P("POS", 0)
-    if pos == 2 and cc:
-        return True
     with concrete_section():
         ok = check(text, cc, pos, P("PIPE", 1))
     return fin(ok)
